@@ -126,3 +126,19 @@ Proof.
   exists st1, st2. repeat split; try assumption; apply (cbcr_seq_spec D D_len); assumption.
 Qed.
 End Laws.
+
+(* C03, stream layer, CTR: two cuts of the same ciphertext read (until an empty read) to the same bytes *)
+Theorem ctr_cut_indep : forall (E : bytes -> bytes -> bytes) key iv c1 c2 ns1 ns2 st1 st2,
+  ctrr_new key iv c1 = Ok st1 -> ctrr_new key iv c2 = Ok st2 -> concat c1 = concat c2 ->
+  Forall (fun n => 0 < n) ns1 -> Forall (fun n => 0 < n) ns2 ->
+  In [] (ctrr_read_seq E st1 ns1) -> In [] (ctrr_read_seq E st2 ns2) ->
+  concat (ctrr_read_seq E st1 ns1) = concat (ctrr_read_seq E st2 ns2).
+Proof.
+  intros E key iv c1 c2 ns1 ns2 st1 st2 H1 H2 Hc P1 P2 I1 I2. unfold ctrr_new in *.
+  destruct (key_iv_ok key iv); [|discriminate]. inversion H1; subst. inversion H2; subst. clear H1 H2.
+  destruct (ctrr_seq_spec E ns1 {| cr_key := key; cr_iv := of_be iv; cr_pos := 0; cr_src := c1 |}) as [A1 B1].
+  destruct (ctrr_seq_spec E ns2 {| cr_key := key; cr_iv := of_be iv; cr_pos := 0; cr_src := c2 |}) as [A2 B2].
+  cbn [cr_key cr_iv cr_pos cr_src] in *.
+  apply (in_nil_map_length _ _ B1) in I1. apply (in_nil_map_length _ _ B2) in I2.
+  rewrite A1, A2, (flat_reads_complete ns1 c1 P1 I1), (flat_reads_complete ns2 c2 P2 I2), Hc. reflexivity.
+Qed.
